@@ -232,4 +232,39 @@ theorem no_infinite_run_lex {step : St → Tid → Ev → Option St} {Good : St 
     have hM := total_step μ ts hnd _ _ _ hmem h3
     constructor <;> omega
 
+/-! ## Form with a shared potential
+
+For components in which work is handed over through a shared container (an element pushed by one thread is
+processed later by another): a global potential `G` (e.g. a constant times the size of the container) plus
+the per-thread ranks.  Every library step of `t` strictly lowers `G + μ · t` and does not raise the rank of
+another thread. -/
+
+structure RankedG (step : St → Tid → Ev → Option St) (Good : St → Prop) (isEnv : Ev → Bool)
+    (G : St → Nat) (μ : St → Tid → Nat) : Prop where
+  good : ∀ s t e s', Good s → step s t e = some s' → isEnv e = false → Good s'
+  dec : ∀ s t e s', Good s → step s t e = some s' → isEnv e = false → G s' + μ s' t < G s + μ s t
+  frame : ∀ s t e s' u, Good s → step s t e = some s' → isEnv e = false → u ≠ t → μ s' u ≤ μ s u
+
+/-- **No infinite execution with finitely many environment events**, shared-potential form -/
+theorem no_infinite_runG {step : St → Tid → Ev → Option St} {Good : St → Prop} {isEnv : Ev → Bool}
+    {G : St → Nat} {μ : St → Tid → Nat} (R : RankedG step Good isEnv G μ)
+    (ts : List Tid) (hnd : ts.Nodup) (x : Exec step) (N : Nat) (hg : Good (x.σ N))
+    (hts : ∀ n, N ≤ n → x.who n ∈ ts) (hnc : ∀ n, N ≤ n → isEnv (x.ev n) = false) : False := by
+  have hgood : ∀ k, Good (x.σ (N + k)) := by
+    intro k
+    induction k with
+    | zero => exact hg
+    | succ k ih => exact R.good _ _ _ _ ih (x.ok (N + k)) (hnc _ (by omega))
+  apply no_lex_descent (fun k => G (x.σ (N + k)) + total μ ts (x.σ (N + k))) (fun _ => 0)
+  intro k
+  left
+  have hstep := x.ok (N + k)
+  have hne := hnc (N + k) (by omega)
+  have hmem := hts (N + k) (by omega)
+  have hT := total_step μ ts hnd _ _ _ hmem (fun u hu => R.frame _ _ _ _ u (hgood k) hstep hne hu)
+  have hd := R.dec _ _ _ _ (hgood k) hstep hne
+  show G (x.σ (N + (k + 1))) + total μ ts (x.σ (N + (k + 1))) < _
+  rw [show N + (k + 1) = N + k + 1 by omega]
+  omega
+
 end ConcVerif.Live
